@@ -340,9 +340,44 @@ class Gen:
         local_keys = {}
         n_sub = 1 + self.t.draw(3, "sub-ops")
         bits = 0.0
+        outer_refs = set()
         for _ in range(n_sub):
-            kind = self.t.weighted([3, 2, 3, 2], "sub-kind")
+            can_ctl = self.allow_control and bool(local_keys or any(
+                ":" not in kk and kk not in ("u", "v") and len(dd) == 1 and dd[0] == 2
+                for kk, dd in self.key_dims.items()))
+            kind = self.t.weighted([3, 2, 3, 2, 3 if can_ctl else 0], "sub-kind")
             q = inner[self.t.draw(k, "sub-qi")]
+            if kind == 4:
+                # an operation inside the sub-circuit conditioned on a key the sub-circuit measured earlier
+                # (mapped and scoped together with that measurement) or on a key of the enclosing circuit
+                base = (self._pick([cirq.X, cirq.Z, cirq.H], "sub-cl") if self.clifford_only
+                        else self._pick([cirq.X, cirq.Y ** 0.5, cirq.Z, cirq.H], "sub-cgate")).on(q)
+                outer_pool = sorted(kk for kk, dd in self.key_dims.items()
+                                    if ":" not in kk and kk not in ("u", "v") and len(dd) == 1 and dd[0] == 2)
+                if local_keys and (not outer_pool or self.t.chance(2, 3, "ctl-local?")):
+                    ck = self._pick(sorted(local_keys), "ctl-key")
+                    self.features.add("subcircuit-control-local-key")
+                else:
+                    ck = self._pick(outer_pool, "ctl-key")
+                    outer_refs.add(ck)
+                    self.features.add("subcircuit-control-outer-key")
+                mk = cirq.MeasurementKey(ck)
+                form = self.t.draw(6, "ctl-form")
+                if form == 0:
+                    cond = cirq.KeyCondition(mk)
+                elif form == 1:
+                    cond = cirq.KeyCondition(mk, index=0)
+                elif form == 2:
+                    cond = cirq.BitMaskKeyCondition(mk, index=-1, target_value=1, equal_target=False, bitmask=1)
+                elif form == 3:
+                    cond = cirq.BitMaskKeyCondition(mk, index=0, target_value=1, equal_target=True)
+                elif form == 4:
+                    cond = cirq.SympyCondition(sympy.Eq(sympy.Symbol(ck), self.t.draw(2, "ctl-val")))
+                else:
+                    cond = cirq.SympyCondition(sympy.IndexedBase(ck)[0])
+                ops.append(base.with_classical_controls(cond))
+                self.features.add("classical-control")
+                continue
             if kind == 0:
                 ops.append(cirq.ry(math.pi / 8 * self._pick(EIGHTHS, "angle")).on(q) if not self.clifford_only
                            else self._pick([cirq.H, cirq.S, cirq.X], "sub-cl").on(q))
@@ -377,6 +412,8 @@ class Gen:
                 kmap[lk] = self._pick(["m", "n", "a", "b"], "sub-mapped")
         if len(set(kmap.get(lk, lk) for lk in local_keys)) != len(local_keys):
             return None
+        if outer_refs & (set(kmap.values()) | set(kmap)):
+            return None       # keep "the enclosing circuit's key" unambiguous
         # resulting outer key names and instance counts
         planned = {}
         for i in range(reps):
